@@ -174,6 +174,25 @@ def sweep_slots(quick):
         yield {"sweep": "slots", "model": m, "flips": ["performance-list", [i for i, x in enumerate(lst) if x >= 0]]}
 
 
+def sweep_shared_chain(quick):
+    """two samples living in ONE cluster chain (same first cluster), told apart by their leading-cluster offsets: every
+    order of a 3-cluster chain x every pair of distinct offsets x same partial / different performances"""
+    for ch in itertools.permutations((2, 3, 4)):
+        for ta, tb in itertools.permutations((0, 1, 2), 2):
+            for split in (False, True):
+                smp = {0: {"name": "HALFA", "chain": list(ch), "cluster_top": ta, "points": [0, 0, CW * (3 - ta) - 7, 0, 9], "mode": 0, "seq": 7},
+                       1: {"name": "HALFB", "chain": list(ch), "cluster_top": tb, "points": [1, 1, CW * (3 - tb) - 5, 1, 9], "mode": 0, "seq": 7},
+                       2: {"name": "ELSE", "chain": [6, 5], "points": [0, 0, CW + 9, 0, 9], "mode": 0, "seq": 8}}
+                m = simple_model(smp)
+                if split:
+                    m["volumes"][0]["perfs"] = [0, 1]
+                    m["performances"][1] = {"name": "PERF1", "patches": [1]}
+                    m["patches"][1] = {"name": "PATCH1", "partials": [1]}
+                    m["partials"][0]["samples"] = [0, 2]
+                    m["partials"][1] = {"name": "PART1", "samples": [1]}
+                yield {"sweep": "sharedchain", "model": m}
+
+
 def sweep_fat_header(quick):
     """the redundant words of the FAT area (free-cluster count in word 1, version flags in the last two words) take
     consistent, stale and garbage values; chains of 1..4 clusters in ascending and descending order"""
@@ -194,7 +213,7 @@ def sweep_fat_header(quick):
 
 R_NAME_FAMILIES = {"dots": ["KICK.1", "KICK.2", "V1.5 PAD"], "dotend": ["A.", "B.", ".C"], "dash": ["A-", "B-", "-C"],
                    "symbols": ["A#B", "A&B", "A'B"], "case": ["kick", "Kick", "KICK"], "digits": ["1", "2", "10"],
-                   "long16": ["ABCDEFGHIJKLMNOP", "ABCDEFGHIJKLMNOQ", "ABCDEFGHIJKLMN.P"], "spaces": ["A B", "A  B", "A B C"]}
+                   "long16": ["ABCDEFGHIJKLMNOP", "ABCDEFGHIJKLMNOQ", "ABCDEFGHIJKLMN.P"], "spaces": ["A B", "A  B", "A B C"], "wavext": ["kick", "kick.wav", "kick.WAV"]}
 
 
 def sweep_names(quick):
@@ -273,7 +292,7 @@ class Check(CheckBase):
             "volume->performance->patch->partial->sample relations [thorough: all pairs of flips], no volumes, four "
             "samples per partial, unreferenced sample, orphan performance; (slots) every assignment of a partial's four sample "
             "slots over {unused, 3 samples}, sparse partial / patch / performance lists incl. the last slot; (fatheader) "
-            "free-cluster count word x FAT version x chain length 1,2,4 x order; (names) 8 families of special name shapes x "
+            "free-cluster count word x FAT version x chain length 1,2,4 x order; (sharedchain) two samples in one chain: 6 chain orders x 6 offset pairs x same partial / other performance; (names) 9 families of special name shapes x "
             "3 volume/performance names, judged by content only. non-trivial = permuted chain, cluster_top>0, "
             "reverse mode, window ending on a cluster boundary, or a flipped edge")
     assumptions = ["independent S-7xx writer (mcv/gen/roland.py) and RIFF walker are correct",
@@ -281,7 +300,7 @@ class Check(CheckBase):
 
     def shards(self):
         cases = []
-        for sw in (sweep_window, sweep_header, sweep_fat_header, sweep_endmarks, sweep_chains, sweep_topology, sweep_slots, sweep_names):
+        for sw in (sweep_window, sweep_header, sweep_fat_header, sweep_endmarks, sweep_chains, sweep_topology, sweep_slots, sweep_names, sweep_shared_chain):
             cases.extend(sw(self.quick))
         return self.chunk(cases, 6 if self.quick else 20)
 
